@@ -178,8 +178,10 @@ bool SchemaValidator::checkContent (XMLElementDecl* const elemDecl
 
             if (fNil)
             {
+                // only a FIXED value constraint is incompatible with xsi:nil (Element Locally Valid 3.2.2)
                 if ((!XMLString::equals(value, XMLUni::fgZeroLenString))
-                    || elemDefaultValue)
+                    || (elemDefaultValue
+                        && (((SchemaElementDecl*)elemDecl)->getMiscFlags() & SchemaSymbols::XSD_FIXED) != 0))
                 {
                     emitError(XMLValid::NilAttrNotEmpty, elemDecl->getFullName());
                     fErrorOccurred = true;
@@ -746,6 +748,8 @@ void SchemaValidator::validateElement(const   XMLElementDecl*  elemDef)
         emitError(XMLValid::NillNotAllowed, elemDef->getFullName());
         fErrorOccurred = true;
     }
+    // the flag has served its purpose for this element; it must not be seen by the first child
+    fNilFound = false;
 
     fDatatypeBuffer.reset();
     fTrailing = false;
